@@ -19,6 +19,13 @@ OFF_METHODS = [m + "_offset" for m in ADDR_METHODS]
 HUGE = 64
 
 
+def _small(v):
+    """TLC reads JSON numbers as 32-bit integers: an answer far outside the abstract coordinates (a wrapped or
+    otherwise wild address) is replaced by a marker that no specification value equals, instead of being left to
+    overflow into something that might"""
+    return v if -1000 < v < 1000000 else -777
+
+
 class Recorder:
     """Issues seeded batches of lookups on the real objects and writes ndjson records."""
 
@@ -44,7 +51,7 @@ class Recorder:
         self.hi = max_coord if max_coord is not None else hi + 2
         if self.hi + 8 >= HUGE:
             raise MachineryFailure("abstract coordinates reach the whole-address-space sentinel")
-        self.keys = [k for k in ABS_KEYS]
+        self.keys = [k for k in ABS_KEYS] + (["sname", "pay"] if consts["Symbols"] else [])
         self.seen_states = set()
         self.hists = []    # operation + query history behind every record (for replays)
         self.raised = []   # lookups that raised instead of answering
@@ -113,6 +120,11 @@ class Recorder:
                 cands += [("section_address", x), ("section_size", x)]
         for b in sorted(self.c["CodeBlocks"] | self.c["DataBlocks"]):
             cands += [("block_address", b), ("contains_offset", b), ("contains_address", b)]
+        if not self.c["Addrs"]:
+            cands = []          # a universe without geometry: only the lookups by name and by referent below
+        if self.c["Symbols"]:
+            cands += [("symbols_named", m) for m in sorted(self.c["Modules"])]
+            cands += [("references", b) for b in sorted(self.c["CodeBlocks"] | self.c["DataBlocks"] | self.c["Proxies"])]
         return cands
 
     def ask(self, env, f, x, q, point):
@@ -120,13 +132,17 @@ class Recorder:
         if hasattr(env, "history"):
             env.history.append({"name": "query", "f": f, "x": x, "q": list(q), "point": bool(point)})
         o = env.obj[x]
+        if f == "references":
+            return [env.nid(y) for y in o.references]
+        if f == "symbols_named":      # q[0] indexes the sorted names of the universe (replays)
+            return [env.nid(y) for y in o.symbols_named(env.to_name(sorted(self.c["Names"])[q[0] % len(self.c["Names"])]))]
         if f in ("section_address", "section_size"):
             v = o.address if f == "section_address" else o.size
             if v is None:
                 return [NOADDR]
-            return [env.from_addr(v) if f == "section_address" else v]
+            return [_small(env.from_addr(v) if f == "section_address" else v)]
         if f == "block_address":
-            return [env.from_addr(o.address)]
+            return [_small(env.from_addr(o.address))]
         if f == "contains_offset":
             return [bool(o.contains_offset(q[0]))]
         if f == "contains_address":
@@ -169,6 +185,22 @@ class Recorder:
         if self.always_blocks:      # the per-block views, for every block, at every record
             picks += [c for c in cands if c[0] in ("block_address", "contains_offset", "contains_address")]
         for f, x in picks:
+            if f in ("symbols_named", "references"):
+                e = {"f": f, "x": x, "q": [0, 1, 1]}
+                try:
+                    if f == "symbols_named":
+                        k = self.rng.randrange(len(self.c["Names"]))
+                        e["nm"] = sorted(self.c["Names"])[k]
+                        e["q"] = [k, k + 1, 1]
+                        e["ans"] = [env.nid(y) for y in env.obj[x].symbols_named(env.to_name(e["nm"]))]
+                    else:
+                        e["ans"] = [env.nid(y) for y in env.obj[x].references]
+                    if hasattr(env, "history"):
+                        env.history.append({"name": "query", "f": f, "x": x, "q": list(e["q"]), "point": True, "nm": e.get("nm")})
+                    qs.append(e)
+                except Unprojectable:
+                    pass        # a symbol of another universe in the index: the structural checks report that
+                continue
             q, point = self._query(env, x, f.endswith('_offset') or f == 'contains_offset')
             if f in ("section_address", "section_size", "block_address"):
                 q, point = [0, 1, 1], True
@@ -293,7 +325,8 @@ class LazyEnv:
 
     def _grid(self, env):
         out = []
-        cands = [c for c in self.rec._candidates(env) if c[0] not in ("contains_offset", "contains_address", "block_address")]
+        cands = [c for c in self.rec._candidates(env) if c[0] not in ("contains_offset", "contains_address", "block_address",
+                                                                      "symbols_named", "references")]
         if len(cands) > 30:
             cands = self.gridrng.sample(cands, 30)
         for f, x in cands:
